@@ -101,11 +101,6 @@ theorem runReruns_entry (s : State) (now j : Nat) (key : BList) (svc : Service) 
   exact foldl_inv (fun (a : State × List Out) => Entry a.1 key svc) (execRerun now j) _ (_, []) (h.congr rfl)
     (fun a r _ ha => execRerun_entry now j a r key svc ha)
 
-theorem runIpCheck_services (s : State) (now : Nat) : (runIpCheck s now).services = s.services := by
-  unfold runIpCheck
-  repeat' split
-  all_goals rfl
-
 theorem loopTail_entry (s : State) (now j : Nat) (key : BList) (svc : Service) (h : Entry s key svc) :
     Entry (loopTail s now j).1 key svc := by
   unfold loopTail
@@ -126,28 +121,6 @@ theorem idleRun_inv (j : Nat) (ts : List Nat) (s : State) (h : Inv s) : Inv (idl
   | cons t ts ih => exact ih _ (iter_inv s (idle t j) h (idle_plain t j))
 
 /-! ### the interface is there once -/
-
-theorem IntfsOk.unique {s : State} {i : MyIntf} {l1 l2 : List MyIntf} (h : IntfsOk s i l1 l2) {i' : MyIntf}
-    (hm : i' ∈ s.intfs) (hidx : i'.index = i.index) : i' = i := by
-  rw [h.split] at hm
-  simp only [List.mem_append, List.mem_cons] at hm
-  rcases hm with hm | rfl | hm
-  · exact absurd hidx (h.other i' (List.mem_append.mpr (Or.inl hm)))
-  · rfl
-  · exact absurd hidx (h.other i' (List.mem_append.mpr (Or.inr hm)))
-
-theorem IntfsOk.mem {s : State} {i : MyIntf} {l1 l2 : List MyIntf} (h : IntfsOk s i l1 l2) : i ∈ s.intfs := by
-  rw [h.split]; simp
-
-theorem IntfsOk.find {s : State} {i : MyIntf} {l1 l2 : List MyIntf} (h : IntfsOk s i l1 l2) :
-    s.intfs.find? (·.index == i.index) = some i := by
-  rw [h.split, List.find?_append]
-  have h1 : l1.find? (·.index == i.index) = none := by
-    rw [List.find?_eq_none]
-    intro x hx
-    have := h.other x (List.mem_append.mpr (Or.inl hx))
-    simpa using this
-  simp [h1]
 
 /-- a record whose name's `active` entry is as in `r0` is active exactly as in `r0` -/
 theorem isActive_of_act {r r0 : Registry} {a : RR} (h : alookup a.getName r.active = alookup a.getName r0.active) :
@@ -404,6 +377,10 @@ theorem probingOnIntf_announces (now j : Nat) (acc : State × List Out) (i : MyI
         timers := acc.1.timers ++ (checkProbing r now).timers } : State).registry i.index =
         (handleExpiredProbes (checkProbing r now).expired i.name (checkProbing r now).reg).1 :=
       registry_setRegistry_self _ _ _
+    have hdrain : ∀ (x : State × List Out), Sent x i svc v4 (uniqueRecords svc i {} v4) now →
+        Sent (drainNewTimers i.index x) i svc v4 (uniqueRecords svc i {} v4) now :=
+      fun x hx => ⟨hx.packet, hx.status, hx.rerun⟩
+    apply hdrain
     apply foldl_wake_announces now j i svc v4 hne
     · rw [e]; exact hexnr.1
     · rw [e]; exact hactive
@@ -496,7 +473,7 @@ theorem iter_idle_announces (s : State) (i : MyIntf) (l1 l2 : List MyIntf) (svc 
   unfold loopTail
   -- after the re-runs
   obtain ⟨hw0, _, hi4, _, _⟩ := runReruns_keeps { s with timers := s.timers.filter (· > T + 750) } (T + 750) j i.index
-    a0.getName T (T + 750) _ (hg0.watch.congr rfl) hg0.reruns
+    a0.getName T (T + 750) _ (hg0.watch.congr rfl rfl rfl) hg0.reruns
   have hinv2 : Inv ({ s with timers := s.timers.filter (· > T + 750) } : State) := hinv.congr_regs rfl rfl rfl
   have hinv4 := (runReruns_inv _ (T + 750) j hinv2).1
   have hent4 := runReruns_entry { s with timers := s.timers.filter (· > T + 750) } (T + 750) j _ svc (hent.congr rfl)
@@ -515,7 +492,7 @@ theorem iter_idle_announces (s : State) (i : MyIntf) (l1 l2 : List MyIntf) (svc 
     intro a ha
     obtain ⟨b, A, hm, hbn, _, hg⟩ := hall a ha
     obtain ⟨hw, _, _, _, _⟩ := runReruns_keeps { s with timers := s.timers.filter (· > T + 750) } (T + 750) j i.index
-      a.getName T (T + 750) _ (hg.watch.congr rfl) hg.reruns
+      a.getName T (T + 750) _ (hg.watch.congr rfl rfl rfl) hg.reruns
     obtain ⟨p, hp, hst, hnx, hrec, hwt⟩ := hw.probe
     refine ⟨p, b, hp, ?_, hrec b (by simp), hbn, hm, hwt _ (by simp)⟩
     unfold Probe.action
